@@ -467,6 +467,13 @@ func (in *Interp) truth(v Value) bool {
 	if b.Known {
 		return b.V
 	}
+	// one question per nil test, however it is written: x == nil is asked as not (x != nil), nil on the left as nil on the right
+	if strings.HasPrefix(b.Sym, "nil==") || strings.HasPrefix(b.Sym, "nil!=") {
+		b.Sym = b.Sym[5:] + b.Sym[3:5] + "nil"
+	}
+	if strings.HasSuffix(b.Sym, "==nil") {
+		return in.decide("B:"+strings.TrimSuffix(b.Sym, "==nil")+"!=nil", 2) != 0
+	}
 	res := in.decide("B:"+b.Sym, 2) == 0
 	if m := intCmpRe.FindStringSubmatch(b.Sym); m != nil {
 		n, _ := strconv.Atoi(m[3])
@@ -863,6 +870,28 @@ func (in *Interp) stmt(fr *Frame, s ast.Stmt) (ctl, Value) {
 		case VNil:
 		case *VOpaque:
 			elems = in.elemsOf(l).Elems
+		case VInt:
+			// for i := range n  is  for i := 0; i < n; i++ (n evaluated once)
+			for iter := 0; ; iter++ {
+				if iter > 64 {
+					in.fail("loop bound exceeded")
+				}
+				if !in.truth(in.binop(token.LSS, VInt{Known: true, V: iter}, l, fmt.Sprintf("%d<%s", iter, origin(l)))) {
+					break
+				}
+				sub := &Frame{vars: map[types.Object]*Value{}, pkg: fr.pkg, up: fr}
+				if v.Key != nil {
+					in.assign(sub, v.Key, VInt{Known: true, V: iter}, v.Tok == token.DEFINE)
+				}
+				c, r := in.block(sub, v.Body.List)
+				if c == cBreak {
+					break
+				}
+				if c == cReturn {
+					return c, r
+				}
+			}
+			return cNone, nil
 		default:
 			in.fail("range over %T at %v", x, fr.pkg.Fset.Position(v.Pos()))
 		}
@@ -1875,7 +1904,7 @@ func (in *Interp) call(fr *Frame, c *ast.CallExpr) Value {
 		switch f.Origin {
 		case "extfunc:fmt.Sprintf":
 			return in.sprintf(args)
-		case "extfunc:fmt.Errorf":
+		case "extfunc:fmt.Errorf", "extfunc:errors.New":
 			return VErr{"errorf@" + fr.pkg.Fset.Position(c.Pos()).String()}
 		case "extfunc:strconv.Atoi":
 			if ls, ok := args[0].(VStr).isLit(); ok {
@@ -2039,6 +2068,33 @@ func (in *Interp) call(fr *Frame, c *ast.CallExpr) Value {
 			}
 			out.Elems = append(out.Elems, cur)
 			return out
+		case "extfunc:strings.Cut":
+			sv, ok1 := asStrOK(args[0])
+			sep, ok2 := asStr(args[1]).isLit()
+			if !ok1 || !ok2 || sep == "" {
+				break
+			}
+			// before, after, found: cut at the first occurrence of sep in the literal parts (holes are assumed free of sep)
+			before, after := VStr{}, VStr{}
+			found := false
+			for _, part := range sv.Parts {
+				if found {
+					after = after.concat(VStr{[]Part{part}})
+					continue
+				}
+				if part.Hole != nil {
+					before = before.concat(VStr{[]Part{part}})
+					continue
+				}
+				if i := strings.Index(part.Lit, sep); i >= 0 {
+					found = true
+					before = before.concat(lit(part.Lit[:i]))
+					after = after.concat(lit(part.Lit[i+len(sep):]))
+				} else {
+					before = before.concat(lit(part.Lit))
+				}
+			}
+			return VTuple{[]Value{before, after, VBool{Known: true, V: found}}}
 		case "extfunc:strings.Replace", "extfunc:strings.ReplaceAll":
 			sv, ok1 := args[0].(VStr)
 			old, ok2 := args[1].(VStr).isLit()
